@@ -101,6 +101,24 @@ def main(argv=None):
             from .selftest import run_selftest
 
             run_selftest([args.pid.upper()], jobs=16, verbose=False, record=True)
+            if not os.environ.get("VERIF_NO_MUTATION"):
+                from .mutate import run_property_mutation
+
+                summ = run_property_mutation(args.pid.upper(), jobs=16, seed=seed)
+                # recorded in the evidence of this (thorough) run
+                from pathlib import Path
+
+                evf = Path(os.environ.get("VERIF_EVIDENCE_DIR", Path(__file__).resolve().parent.parent / "evidence")) / f"{args.pid.upper()}.json"
+                try:
+                    ev = json.loads(evf.read_text())
+                    ev.setdefault("coverage", {})["rule_sensitivity"] = {k: summ[k] for k in ("functions_consulted_and_mutated", "mutation_points", "mutants_analysed", "reported_as_violation", "analysis_error", "silent", "note")}
+                    st = evf.with_name(f"selftest-{args.pid.upper()}.json")
+                    if st.exists():
+                        sj = json.loads(st.read_text())
+                        ev["coverage"]["seeded_breaks"] = {k: sj[k] for k in ("seeds_total", "detected", "missed", "skipped")}
+                    evf.write_text(json.dumps(ev, indent=1))
+                except Exception as e:  # evidence stays as written by the check
+                    print(f"note: could not attach the sensitivity summary to the evidence file ({e})")
         return code
     if args.cmd == "replay":
         rec = json.loads(open(args.path).read())
